@@ -16,6 +16,9 @@ JCC = {"jo", "jno", "jb", "jae", "je", "jne", "jbe", "ja", "js", "jns", "jp", "j
        "jrcxz", "jecxz", "loop", "loope", "loopne"}
 
 
+NORETURN = {"__stack_chk_fail", "abort", "__assert_fail", "exit", "_exit"}
+
+
 class Insn:
     __slots__ = ("addr", "size", "raw", "mnem", "ops", "reloc", "prefix")
 
@@ -211,6 +214,8 @@ class Archive:
                         calls.add((t[1], t[2]))
                     elif t[0] == "ext":
                         calls.add((None, t[1]))
+                        if t[1] in NORETURN:
+                            break
                     elif t[0] == "local_sec":
                         calls.add(((objname, t[1], t[2]), None))
                     else:
